@@ -122,6 +122,9 @@ def run(ctx):
         if r:
             rules.append(str(r))
         timings[m.__name__.split(".")[-1]] = {"wall_s": round(time.time() - t0, 2), "evaluations": ctx.evaluations - ev0}
+    if ctx._driver_ok:
+        from props import c19_variant
+        c19_variant.finish(ctx)
     ctx.rule = " || ".join(rules)
     ctx.exhaustive = False
     # re-entrant: the framework may call run() again with further seeds (escalation)
